@@ -1,22 +1,63 @@
 """C19: memory safety of the C extension for all argument values --
 DESIGN section 3 C19."""
+import re, os
 from engine import cside
 from engine.checks import c_common, c17
+
+LAPACK_WRAPPERS = (
+    'getrf getrs getri gesv gbtrf gbtrs gbsv gttrf gttrs gtsv potrf potrs '
+    'potri posv pbtrf pbtrs pbsv pttrf pttrs ptsv sytrs hetrs sytrf hetrf '
+    'sytri hetri sysv hesv trtrs trtri tbtrs gels geqrf ormqr unmqr orgqr '
+    'ungqr gelqf ormlq unmlq orglq unglq syev heev syevx heevx syevd heevd '
+    'syevr heevr sygv hegv gesvd gesdd gees gges lacpy geqp3 larfg '
+    'larfx').split()
+
+
+def method_table(cfile, table):
+    """functions registered in the PyMethodDef table of the current source"""
+    from engine.cvc import cast
+    src = open(os.path.join(cast.REPO, 'src/C', cfile)).read()
+    i = src.find(table)
+    if i < 0:
+        return []
+    tab = src[i:src.find('};', i)]
+    return [b for a, b in re.findall(
+        r'\{\s*"(\w+)"\s*,\s*\(PyCFunction\)\s*(\w+)', tab)]
+
+
+def lapack_tasks(tier):
+    t = 10000 if tier == 'quick' else 120000
+    fns = list(LAPACK_WRAPPERS)
+    for f in method_table('lapack.c', 'PyMethodDef lapack_functions'):
+        if f not in fns:        # a wrapper added after this list was written
+            fns.append(f)
+    return [{'cfile': 'lapack.c', 'fn': f, 'mode': 'lapack-wrapper',
+             'timeout_ms': t} for f in fns]
 
 
 def tasks(tier):
     from engine.checks import c15, c20
     return c17.tasks(tier) + c15.tasks(tier, sorted(set(c15.FUNCS +
-                                                        c20.FUNCS)))
+                                                        c20.FUNCS))) + \
+        lapack_tasks(tier)
 
 
 def run(report, tier, seed):
     reps = cside.run_tasks(tasks(tier))
     c_common.feed(report, reps, c_common.SAFETY_KINDS)
     c_common.install_replayer(report, dense=True)
-    report.floor = 200
+    report.floor = 400
+    from contracts.c import extern_lapack
     report.assumptions += [
         'reference-BLAS footprint contracts (contracts/c/extern_blas.py)',
+        'LAPACK footprint/validity contracts taken from the routine '
+        'documentation (contracts/c/extern_lapack.py)',
         'valid(matrix) type invariant on entry',
         'mathematical integers with explicit no-overflow obligations: '
-        'O_wrap = O_math /\\ nooverflow (DESIGN 2.4)']
+        'O_wrap = O_math /\\ nooverflow (DESIGN 2.4)'] + list(
+            extern_lapack.DEVIATIONS)
+    report.unverified += [
+        'sparse.c (all functions): outside the supported C subset',
+        'base.c generic products (base_gemv, base_gemm, base_syrk, '
+        'base_symv, base_axpy), misc_solvers.c, cholmod.c, umfpack.c, '
+        'amd.c, glpk.c, gsl.c, fftw.c, dsdp.c: not under contract']
